@@ -271,6 +271,10 @@ macro_rules! consts {
                     ("szac_sac_r9", $l, $m) => Some(Box::new(
                         SelectZeroAdaptConst::<_, Box<[usize]>, $l, $m>::new(
                             SelectAdaptConst::<_, Box<[usize]>, $l, $m>::new(Rank9::new(bits))))),
+                    ("szac_map", $l, $m) => Some(Box::new(unsafe {
+                        SelectZeroAdaptConst::<AB, Box<[usize]>, $l, $m>::new(bits.into()).map(|ab|
+                            SelectAdaptConst::<_, Box<[usize]>, $l, $m>::new(Rank9::new(ab.into_inner())))
+                    })),
                 )*
                 _ => None,
             }
@@ -337,7 +341,19 @@ fn build(sid: &str, p1: usize, p2: usize, bits: BV) -> Option<Box<dyn RS>> {
             p1,
             p2,
         )),
-        "sac" | "szac" | "szac_sac_r9" => return build_const(sid, p1, p2, bits),
+        // built over one backend and then moved onto another one with the public `map` (contract:
+        // same contents): the structure's own arrays and parameters must survive unchanged
+        "sza_map" => Box::new(unsafe {
+            SelectZeroAdapt::with_inv(AB::from(bits), p1, p2).map(|ab| SelectAdapt::with_inv(ab, p1, p2))
+        }),
+        "sa_map" => Box::new(unsafe {
+            SelectAdapt::with_inv(AB::from(bits), p1, p2).map(|ab| Rank9::new(ab.into_inner()))
+        }),
+        "sa_map_sza" => Box::new(unsafe {
+            SelectAdapt::with_inv(AB::from(bits), p1, p2).map(|ab| SelectZeroAdapt::with_inv(ab, p1, p2))
+        }),
+        "r9_map" => Box::new(unsafe { Rank9::new(bits).map(|b| b) }),
+        "sac" | "szac" | "szac_sac_r9" | "szac_map" => return build_const(sid, p1, p2, bits),
         "rs" | "ss" | "ss_new" | "szs" | "szs_new" | "szs_ss" => {
             return build_small(sid, p1, p2, bits)
         }
@@ -667,6 +683,17 @@ fn all_configs(ctx: &mut Ctx, thorough: bool) -> Vec<(String, usize, usize)> {
         for sid in ["sa_r9", "sza_sa", "sa_sza", "sza_sa_r9", "sza_sel9"] {
             v.push((sid.into(), l, m));
         }
+    }
+    // structures moved onto another backend with `map` (every parameter must survive the move:
+    // parameters with L > M + 4 distinguish the inventory mask from the 16-bit-span mask)
+    for &(l, m) in &[(3usize, 1usize), (7, 2), (10, 2), (10, 3)] {
+        for sid in ["sza_map", "sa_map", "sa_map_sza"] {
+            v.push((sid.into(), l, m));
+        }
+    }
+    v.push(("r9_map".into(), 0, 0));
+    for &(l, m) in &[(12usize, 3usize), (5, 2), (8, 1)] {
+        v.push(("szac_map".into(), l, m));
     }
     for m in [0usize, 1, 3, 16] {
         v.push(("sa_new".into(), 0, m));
